@@ -760,7 +760,11 @@ func runStandIns(id, tier string) ([]map[string]interface{}, []string) {
 		ovf := filepath.Join(tmp, "ov.json")
 		os.WriteFile(ovf, ov, 0o644)
 		t0 := time.Now()
-		args := []string{"test", "-overlay", ovf, "-vet=off", "-count=1", "-timeout", "1500s", "-v"}
+		tmo := "1500s"
+		if tier != "thorough" {
+			tmo = "300s" // quick-tier stand-ins take seconds; a changed tree that makes one hang must not block the check
+		}
+		args := []string{"test", "-overlay", ovf, "-vet=off", "-count=1", "-timeout", tmo, "-v"}
 		for _, ln := range strings.SplitN(string(src), "\n", 4) {
 			if strings.HasPrefix(ln, "// goflags:") {
 				args = append(args, strings.Fields(strings.TrimPrefix(ln, "// goflags:"))...)
